@@ -153,6 +153,76 @@ impl Node {
     }
 }
 
+/// verification hook: a plain view of a lattice node
+#[cfg(chokan_verif)]
+#[derive(Debug, Clone, PartialEq, Eq)]
+pub struct VerifNode {
+    /// "word" | "virtual" | "bos" | "eos"
+    pub kind: &'static str,
+    pub surface: Vec<char>,
+    pub reading: Vec<char>,
+    pub speech: Option<Speech>,
+    /// index of the last covered character (0 for bos/eos)
+    pub end: usize,
+    /// index inside the list of nodes ending at `end`
+    pub index: usize,
+    /// best score from the start of the sentence; -1 = not connectable
+    pub forward: i32,
+}
+
+#[cfg(chokan_verif)]
+impl Node {
+    pub fn verif_view(&self) -> VerifNode {
+        let forward = Option::<i32>::from(Score::from(self.get_score())).unwrap_or(-1);
+        match self {
+            Node::Word(NodePointer(i, j), w, _) => VerifNode {
+                kind: "word",
+                surface: w.word.clone(),
+                reading: w.reading.clone(),
+                speech: Some(w.speech.clone()),
+                end: *i,
+                index: *j,
+                forward,
+            },
+            Node::Virtual(NodePointer(i, j), s, _) => VerifNode {
+                kind: "virtual",
+                surface: s.clone(),
+                reading: s.clone(),
+                speech: None,
+                end: *i,
+                index: *j,
+                forward,
+            },
+            Node::Bos => VerifNode {
+                kind: "bos",
+                surface: vec![],
+                reading: vec![],
+                speech: None,
+                end: 0,
+                index: 0,
+                forward,
+            },
+            Node::Eos => VerifNode {
+                kind: "eos",
+                surface: vec![],
+                reading: vec![],
+                speech: None,
+                end: 0,
+                index: 0,
+                forward,
+            },
+        }
+    }
+}
+
+#[cfg(chokan_verif)]
+impl Graph {
+    /// verification hook: number of positions and a copy of the nodes ending at each of them
+    pub fn verif_positions(&self) -> Vec<Vec<Node>> {
+        self.nodes.clone()
+    }
+}
+
 #[derive(Debug)]
 pub struct Graph {
     /// graphの中に含まれるNode
